@@ -87,7 +87,19 @@ func genProjTable(t *rapid.T, minRows, maxRows int, label string) *ProjTable {
 		}
 		if hasObj {
 			l := fmt.Sprintf("%s.r%d.obj", label, r)
-			switch rapid.IntRange(0, 5).Draw(t, l+".shape") {
+			switch rapid.IntRange(0, 6).Draw(t, l+".shape") {
+			case 6:
+				// an array of objects: a path through it yields the array of the elements' values
+				n := rapid.IntRange(1, 3).Draw(t, l+".arrlen")
+				arr := []any{}
+				for i := 0; i < n; i++ {
+					el := map[string]any{"k1": rapid.SampledFrom(numPool).Draw(t, fmt.Sprintf("%s.a%d.k1", l, i))}
+					if rapid.Bool().Draw(t, fmt.Sprintf("%s.a%d.hask2", l, i)) {
+						el["k2"] = rapid.SampledFrom(intPool).Draw(t, fmt.Sprintf("%s.a%d.k2", l, i))
+					}
+					arr = append(arr, el)
+				}
+				row[pt.Obj] = arr
 			case 0:
 				row[pt.Obj] = nil
 			case 1:
